@@ -23,6 +23,7 @@ THEOREMS = [_T + n for n in (
     "inv_after", "permits_conserved", "outstanding_le_initial", "bounded_value_le", "bounded_releases_le_grants",
     "no_idle_permit", "no_lost_wakeup", "fifo_among_live", "dead_never_granted", "grant_only_live",
     "bounded_release_raises", "lock_release_raises", "bounded_over_release_raises", "gc_preserves_abs",
+    "deadline_times_out",
 )]
 TRUSTED = [
     "asyncio event loop ordering as abstracted by the model's drain: ready callbacks (done-callbacks, FIFO) run before "
@@ -44,7 +45,7 @@ CLAUSES = {
     "granted and unreleased permits never exceed the initial value": "permits_conserved + outstanding_le_initial (+ bounded_value_le)",
     "granted waiters are served in arrival order skipping only timed-out/cancelled ones": "fifo_among_live (+ inv_after: deque sorted by arrival)",
     "a permit is never left unused while a live waiter waits": "no_idle_permit + no_lost_wakeup",
-    "timed-out or cancelled waiters never obtain one": "dead_never_granted + grant_only_live",
+    "timed-out or cancelled waiters never obtain one": "dead_never_granted + grant_only_live (+ deadline_times_out: a live waiter whose deadline is reached does time out)",
     "releasing beyond the initial value (bounded) or an unlocked lock raises": "bounded_release_raises + lock_release_raises + bounded_over_release_raises + bounded_releases_le_grants",
     "garbage collection of timed-out waiters is unobservable": "gc_preserves_abs",
     "checked against a sequential reference model": "tie: Spec (sequential semaphore) is the oracle on every case; refinement theorem refines_spec: see docs/C33.md",
